@@ -32,7 +32,7 @@ func TestExt20AgainstNativeGo(t *testing.T) {
 		t.Skip("coqc not found")
 	}
 	body, err := Translate(".", TransSpec{Dir: "internal/sample",
-		Funcs: []string{"TableSetup", "TableSum", "Both", "HexDigit", "Hex", "StrOps", "HighByte", "Bytes", "I64", "I32", "I8", "Conv",
+		Funcs: []string{"TableSetup", "TableSum", "Both", "HexDigit", "Hex", "AsciiRange", "StrOps", "HighByte", "Bytes", "I64", "I32", "I8", "Conv",
 			"Num.Half", "Num.Check", "UseCheck", "Opaque.Twice"},
 		Globals: []string{"table", "counter"}, WrapSigned: true, Frags: []FragSpec{{Func: "WithFrag", Nth: 1}}})
 	if err != nil {
@@ -61,6 +61,7 @@ func TestExt20AgainstNativeGo(t *testing.T) {
 		if k >= 0 {
 			add(fmt.Sprintf("g_Hex 99 %s", zs(k)), func() string { return bl([]byte(sample.Hex(k))) })
 		}
+		add(fmt.Sprintf("g_AsciiRange 99 %s", zs(k)), func() string { return zs(sample.AsciiRange(k)) })
 		add(fmt.Sprintf("g_Opaque_Twice %s", zs(k)), func() string { return zs((&sample.Opaque{}).Twice(k)) })
 		if k < 100 {
 			add(fmt.Sprintf("g_WithFrag_loop1 200 [7; 8] %s", zs(k)), func() string { return zs(sample.WithFrag([]int{7, 8}, k)) })
